@@ -4,10 +4,9 @@
 
 use crate::prop::{Outcome, Prop, PropInfo, Verdict, WorkerEnv};
 use crate::rng::Rng;
-use crate::sim::{self, SimWriter};
+use crate::sim;
 use duckscript::runner;
 use duckscript::types::command::{Command, CommandInvocationContext, CommandResult, GoToValue};
-use duckscript::types::env::Env;
 use duckscript::types::error::ScriptError;
 use duckscript::types::runtime::Context;
 use serde::{Deserialize, Serialize};
@@ -627,7 +626,9 @@ fn gen_answer(rng: &mut Rng, n_lines: usize, weights: &[u32; 6]) -> Ans {
         }
         3 => Ans::Error(format!("err-{}", rng.below(100))),
         4 => Ans::Crash(format!("crash {}", rng.below(100))),
-        _ => Ans::Exit(match rng.below(6) {
+        _ => Ans::Exit(match rng.below(7) {
+            // (other spellings of zero and of small numbers: the value is parsed as an integer)
+            6 => Some(rng.pick(&["00", "-0", "+0", "+1", "007", " 0", "0 "]).to_string()),
             0 => None,
             1 => Some("0".to_string()),
             2 => Some(rng.range(1, 200).to_string()),
@@ -726,9 +727,7 @@ pub fn run_real(case: &Case, env: &WorkerEnv, run_dir: &str, halt: Option<std::s
         text = text.replace('\n', "\r\n");
     }
     let context = build_context(case);
-    let out = SimWriter::new("out", vec![]);
-    let err = SimWriter::new("err", vec![]);
-    let renv = Env::new(Some(Box::new(out)), Some(Box::new(err)), halt);
+    let renv = sim::embedder_env(halt);
     if case.file_mode {
         let dir = env.jail_root.join(run_dir);
         let _ = std::fs::create_dir_all(&dir);
